@@ -216,7 +216,7 @@ theorem newPage_invG {s : State V} (inv : InvG s) {c : Nat} (hc : c < nClasses) 
 /-! ### taking a slot (bump or pop) and making it live -/
 
 theorem take_invG {s : State V} (inv : InvG s) {c p i : Nat} {h h' : Page} {k' : ClassSt}
-    {mem' : KMap Addr (SlotMem V)} {M : SlotMem V} {L : LiveRec V}
+    {mem' : KMap Addr (SlotMem V)} {M : SlotMem V} {L : LiveRec V} {hh : Heap}
     (hp : s.pages.get? p = some h) (hcls : h.cls = c) (hev : h.evac = false)
     (h'cls : h'.cls = c) (h'ev : h'.evac = false)
     (hbrk : h.brk ≤ h'.brk) (hbrk' : h'.brk ≤ capOf c) (hi : i < h'.brk)
@@ -233,8 +233,8 @@ theorem take_invG {s : State V} (inv : InvG s) {c p i : Nat} {h h' : Page} {k' :
     (M1 : M.data = some (.sh p i)) (M2 : M.len = L.size) (M3 : M.val = L.val) (M4 : L.size ≤ M.cap)
     (M5 : M.cap + sliceHdrLen = slotSize c) :
     InvG { s with pages := s.pages.set p h', cls := s.cls.set c k',
-                  mem := mem'.set (.sh p i) M, live := s.live.set (.sh p i) L } := by
-  generalize hs' : ({ s with pages := s.pages.set p h', cls := s.cls.set c k', mem := mem'.set (.sh p i) M, live := s.live.set (.sh p i) L } : State V) = s'
+                  mem := mem'.set (.sh p i) M, live := s.live.set (.sh p i) L, heap := hh } := by
+  generalize hs' : ({ s with pages := s.pages.set p h', cls := s.cls.set c k', mem := mem'.set (.sh p i) M, live := s.live.set (.sh p i) L, heap := hh } : State V) = s'
   have e1 : s'.pages = s.pages.set p h' := by subst hs'; rfl
   have e2 : s'.cls = s.cls.set c k' := by subst hs'; rfl
   have e3 : s'.mem = mem'.set (.sh p i) M := by subst hs'; rfl
@@ -484,7 +484,7 @@ theorem allocLive_invG {s s' : State V} {c size cap : Nat} {val : Option V} {a :
     have okp := inv1.pages p h hp
     have nl : ¬ s1.isLive (.sh p h.brk) := fun x => Nat.lt_irrefl _ (live_lt_brk inv1 hp x)
     have ne := okp.ne hev
-    have := take_invG (s := s1) inv1 (c := c) (p := p) (i := h.brk) (h := h)
+    have := take_invG (s := s1) inv1 (c := c) (p := p) (i := h.brk) (h := h) (hh := s1.heap)
       (h' := { h with used := h.used + 1, brk := h.brk + 1, free := h.free - 1 })
       (k' := { s1.K c with freeSlots := (s1.K c).freeSlots - 1,
                            cur := if h.brk + 1 = capOf c then none else some p })
@@ -551,7 +551,7 @@ theorem allocLive_invG {s s' : State V} {c size cap : Nat} {val : Option V} {a :
         · simp only [List.mem_map] at x
           obtain ⟨j, hj, e⟩ := x; subst e
           exact fl_not_live inv1 hp hev (nbrs_subset _ _ _ hj) hb
-      have := take_invG (s := s1) inv1 (c := c) (p := p) (i := i) (h := h)
+      have := take_invG (s := s1) inv1 (c := c) (p := p) (i := i) (h := h) (hh := hPop s1.heap c)
         (h' := { h with freeList := h.freeList.erase i, used := h.used + 1, free := h.free - 1 })
         (k' := { s1.K c with glist := rest, freeSlots := (s1.K c).freeSlots - 1, cur := none })
         (mem' := clobber s1.mem (headAddrs rest ++ (nbrs h.freeList i).map (Addr.sh p)))
@@ -1131,7 +1131,8 @@ theorem beginEvac_invG {s s' : State V} {c pg : Nat} (inv : InvG s) (hr : beginE
           pages := s.pages.set pg { h with evac := true, saved := h.freeList, freeList := [], scan := 0 },
           cls := s.cls.set c { s.K c with cur := if (s.K c).cur = some pg then none else (s.K c).cur,
                                           glist := (s.K c).glist.filter (fun (q, _) => q ≠ pg) },
-          mem := clobber s.mem ((s.K c).glist.map (fun (q, j) => Addr.sh q j)) } c' =
+          mem := clobber s.mem ((s.K c).glist.map (fun (q, j) => Addr.sh q j)),
+          heap := hPurge s.heap c pg h.brk } c' =
           if c = c' then { s.K c with cur := if (s.K c).cur = some pg then none else (s.K c).cur,
                                       glist := (s.K c).glist.filter (fun (q, _) => q ≠ pg) } else s.K c' := by
         intro c'; simp only [State.K, KMap.get?_set]; split <;> rfl
